@@ -370,7 +370,7 @@ func run(t evid.TB, pl *plan, label string) {
 
 	in := sched.New(15 * time.Millisecond)
 	inWindow := 0
-	var opMu sync.Mutex // held by the script while it executes one operation
+	var opMu sync.Mutex                // held by the script while it executes one operation
 	mine := func(o interface{}) bool { // events of this case only
 		w.mu.Lock()
 		streams := append([]*media.Stream(nil), w.streams...)
